@@ -432,4 +432,65 @@ Proof. apply map_length. Qed.
 Lemma length_assoc_modify key f l : length (assoc_modify key f l) = length l.
 Proof. apply map_length. Qed.
 
+(* ---------- concatenation of two sorted lists separated by a pivot ---------- *)
+
+Lemma ssorted_app_intro a b x :
+  ssorted a -> ssorted b -> keys_lt a x -> keys_gt b x -> ssorted (a ++ b).
+Proof.
+  induction a as [|p a IH]; intros Hsa Hsb Hl Hg; cbn [app]; [exact Hsb|].
+  cbn [ssorted] in *. destruct Hsa as (Hga & Hsa).
+  apply keys_lt_cons in Hl. destruct Hl as (Hp & Hl).
+  split; [|apply IH; assumption].
+  apply keys_gt_app. split; [exact Hga|]. eapply keys_gt_le; [exact Hg|lia].
+Qed.
+
+Lemma assoc_app_pivot key a b x :
+  keys_lt a x -> keys_gt b x ->
+  assoc key (a ++ b) =
+  match key ?= x with Lt => assoc key a | Eq => None | Gt => assoc key b end.
+Proof.
+  intros Hl Hg. rewrite assoc_app. cmp_spec key x Hc.
+  - subst. rewrite (assoc_none_lt a x x Hl) by lia. apply (assoc_none_gt b x x Hg). lia.
+  - rewrite (assoc_none_gt b x key Hg) by lia. destruct (assoc key a); reflexivity.
+  - rewrite (assoc_none_lt a x key Hl) by lia. reflexivity.
+Qed.
+
+Lemma assoc_mid_lt key a k v b :
+  keys_lt a k -> keys_gt b k -> key < k -> assoc key (a ++ (k, v) :: b) = assoc key a.
+Proof.
+  intros Hl Hg Hc. rewrite assoc_mid by assumption.
+  rewrite (proj2 (N.compare_lt_iff key k) Hc). reflexivity.
+Qed.
+Lemma assoc_mid_gt key a k v b :
+  keys_lt a k -> keys_gt b k -> k < key -> assoc key (a ++ (k, v) :: b) = assoc key b.
+Proof.
+  intros Hl Hg Hc. rewrite assoc_mid by assumption.
+  rewrite (proj2 (N.compare_gt_iff key k) Hc). reflexivity.
+Qed.
+Lemma assoc_mid_eq a k v b :
+  keys_lt a k -> keys_gt b k -> assoc k (a ++ (k, v) :: b) = Some v.
+Proof.
+  intros Hl Hg. rewrite assoc_mid by assumption. rewrite N.compare_refl. reflexivity.
+Qed.
+
+Lemma union_law_some (f : N -> V -> V -> V) key oa ob v :
+  union_law f key oa ob = Some v -> (exists w, oa = Some w) \/ (exists w, ob = Some w).
+Proof.
+  destruct oa as [w|]; [intros _; left; exists w; reflexivity|].
+  destruct ob as [w'|]; [intros _; right; exists w'; reflexivity|discriminate].
+Qed.
+
+Lemma difference_law_some (g : N -> V -> V -> option V) key oa ob v :
+  difference_law g key oa ob = Some v -> exists w, oa = Some w.
+Proof.
+  destruct oa as [w|]; [intros _; exists w; reflexivity|discriminate].
+Qed.
+
+Lemma assoc_remove_absent key l : assoc key l = None -> assoc_remove key l = l.
+Proof.
+  unfold assoc_remove. induction l as [|[k v] l IH]; cbn [assoc filter fst]; [reflexivity|].
+  rewrite (N.eqb_sym k key). eqb_spec key k Hkk; [discriminate|].
+  intros H. cbn [negb]. rewrite (IH H). reflexivity.
+Qed.
+
 End ListFacts.
